@@ -85,7 +85,7 @@ class C08:
     exhaustive = None
 
     def budget(self, tier):
-        return 1200 if tier == 'quick' else 25000
+        return 1200 if tier == 'quick' else 14000
 
     def gen_struct(self, ch, depth):
         g = tgen.TGen(ch, excl=self.excl)
